@@ -32,7 +32,8 @@ META = {
     "technique": "static analysis: taint-style census of identifier uses, lookup-shape rule over the property sets, grammar/transformer table cross-check (lark grammar loader)",
     "explanation": "Identifier values are followed to every operation applied to them (only equality / lookup / path "
                    "splitting are spelling-independent); name lookups over the hierarchical task set must be positional; "
-                   "the grammar's rule table is cross-checked against the transformer's handlers with lark's own loader.",
+                   "the grammar's rule table is cross-checked against the transformer's handlers with lark's own loader."
+                   " Also: the local-id identity census, dominance of a comment stripper (all comment kinds the grammar ignores) over the macro scans, and a regex-AST rule against line anchors in the built-in macro patterns.",
     "assumptions": ["lark's grammar loader (import of the grammar file only; no project text is parsed)"],
     "trusted_base": ["lark 1.3.1 grammar loader"],
 }
